@@ -101,6 +101,40 @@ fn mode_threads(rng: &mut Rng, rounds: u64, nthreads: usize, per_round: u64) {
     }
 }
 
+/// C15, the /metrics text at quiescent points that follow a scrape racing with the LAST recordings: thousands of very short
+/// rounds (3 recorder threads, 1..3 events each) while one thread scrapes all the time; after every join the text must show the counters
+fn mode_scraperace(rng: &mut Rng, rounds: u64) {
+    let m = Arc::new(Metrics::builder().max_denied_keys(10).build());
+    let stop = Arc::new(std::sync::atomic::AtomicBool::new(false));
+    let scraper = { let m = Arc::clone(&m); let stop = Arc::clone(&stop); std::thread::spawn(move || { let mut n = 0u64; while !stop.load(Ordering::SeqCst) { let _ = m.export_prometheus(); n += 1; } n }) };
+    let mut bad: Option<String> = None;
+    let mut events = 0u64;
+    for round in 0..rounds {
+        let seeds: Vec<u64> = (0..3).map(|_| rng.next()).collect();
+        std::thread::scope(|sc| {
+            for t in 0..3usize {
+                let m = &m; let seed = seeds[t];
+                sc.spawn(move || {
+                    let mut r = Rng::new(seed);
+                    for _ in 0..r.range(1, 3) {
+                        let tr = match r.below(3) { 0 => Transport::Http, 1 => Transport::Grpc, _ => Transport::Redis };
+                        match r.below(4) { 0 => m.record_error(tr), 1 => m.record_request(tr, false), 2 => m.record_request_with_key(tr, false, "k"), _ => m.record_request(tr, true) }
+                    }
+                });
+            }
+        });
+        // quiescent: the three recorders are joined
+        let c = counters(&m);
+        let e = exported(&m);
+        events = c[0];
+        if c[0] != c[1] + c[2] + c[3] || c[0] != c[4] + c[5] + c[6] { bad = Some(format!("round {round}: identities broken at a quiescent point: {:?}", c)); break; }
+        if e != c { bad = Some(format!("round {round}: with no request in flight /metrics reports [total,http,grpc,redis,allowed,denied,errors] = {:?} but the counters are {:?}", e, c)); break; }
+    }
+    stop.store(true, Ordering::SeqCst);
+    let scrapes = scraper.join().unwrap();
+    println!("{{\"mode\":\"scraperace\",\"rounds\":{rounds},\"events\":{events},\"scrapes\":{scrapes},\"oracle\":{:?}}}", bad.map(|b| format!("bad:{b}")).unwrap_or("ok".into()));
+}
+
 /// every single event kind on a fresh Metrics: the smallest histories (minimal failing input when a counter rule is broken)
 fn mode_events() {
     for size in [0usize, 3, 100] {
@@ -258,6 +292,7 @@ fn main() {
     let mut rng = Rng::new(seed ^ 0x3e7);
     match mode.as_str() {
         "events" => mode_events(),
+        "scraperace" => mode_scraperace(&mut rng, arg_u64("--rounds", 3000)),
         "threads" => mode_threads(&mut rng, arg_u64("--rounds", 20), arg_u64("--threads", 8) as usize, arg_u64("--events", 10000)),
         "denied" => mode_denied(&mut rng, arg_u64("--streams", 40), arg_u64("--maxlen", 400)),
         "escape" => mode_escape(&mut rng, arg_u64("--cases", 500)),
